@@ -13,6 +13,12 @@ class Raw(Message):
         Message.__init__(self, ctype, bytearray(data))
         self.tokname = tokname
 
+    def splitFirstByte(self):
+        # 1/n-1 split of application data in CBC suites below TLS 1.1
+        first = Raw(self.contentType, self.data[:1], self.tokname)
+        self.data = self.data[1:]
+        return first
+
 
 def tok(msg, raw=None):
     """token for a message: 'ccs', 'alert', 'app' or handshake type int"""
@@ -44,6 +50,8 @@ class Deviant(object):
         self.log = []          # (i, token, raw bytes) as the endpoint meant
         self.emitted = []      # tokens actually emitted, in order
         self.applied = False
+        self.after = []        # sent before the endpoint's next message of
+                               # any type once the current flight is out
         self.count_types = count_types
         self._busy = False
         osend, oqueue = conn._sendMsg, conn._queue_message
@@ -70,6 +78,16 @@ class Deviant(object):
             return out
 
         def _sendMsg(msg, randomizeFirstBlock=True, update_hashes=True):
+            if dev.after and not dev._busy and \
+                    msg.contentType not in dev.count_types:
+                aft, dev.after = dev.after, []
+                dev._busy = True
+                try:
+                    for m in aft:
+                        for r in osend(m, randomizeFirstBlock, False):
+                            yield r
+                finally:
+                    dev._busy = False
             if dev._busy or not update_hashes:
                 for r in osend(msg, randomizeFirstBlock, update_hashes):
                     yield r
